@@ -167,3 +167,21 @@ func verifFireAfterFuncs() int { return 0 }
 // verifSettle: let goroutines spawned by the call under test finish (native);
 // under the engine such goroutines run synchronously (stated per harness).
 func verifSettle() { time.Sleep(30 * time.Millisecond) }
+
+// verifDecimal: a number in [0, max] given by minDigits..maxDigits decimal digits (no
+// leading zero). Under the engine %d prints exactly these digits.
+func verifDecimal(minDigits, maxDigits int, max uint64) uint64 {
+	n := minDigits + verifChoice(maxDigits-minDigits+1)
+	var v uint64
+	for i := 0; i < n; i++ {
+		d := verifU8()
+		if d > 9 || (i == 0 && n > 1 && d == 0) {
+			panic(verifAssumeFailed{})
+		}
+		v = v*10 + uint64(d)
+	}
+	if v > max {
+		panic(verifAssumeFailed{})
+	}
+	return v
+}
